@@ -157,6 +157,9 @@ func runC10With(c *h.Ctx, pfx string, nKeys int, issuers []*c10Issuer, i1 []*typ
 		if !c10Check(c, pfx+"honest", is, tok) {
 			c.Violation("an honestly issued token is rejected by its issuer", map[string]any{"issuer": is.name})
 		}
+		if full && ti < 2 { // one type-1 and one type-5 token (the first two honest tokens are of the two types)
+			c10Sweeps(c, is, tok)
+		}
 		// every single-bit variant of every field (the honest token was verified first: a verdict cache would show here)
 		if full && (ti < 4 || c.Thorough()) {
 			fields := []func(*tokens.Token) *[]byte{
